@@ -32,6 +32,11 @@ def programs(env, tier):
     anc = ("ANC", env.R2)          # ancilla between the rails of a qubit
     one += [(1, [(anc, 0)]), (1, [(a1[4], 0), (anc, 0)]), (1, [(anc, 0), (a1[9], 0)])]
     two.append((2, [(a1[0], 0), (anc, 1), (("CNOT",), 0), (a1[4], 1)]))
+    # heralds placed directly on the base circuit, at or below qubit modes (not through an added sub-circuit)
+    for w in tomo.WRAPPERS:
+        one.append((1, [(a1[0], 0), (a1[9], 0), ((w,), 0)]))
+    two.insert(0, (2, [(a1[0], 0), (a1[9], 1), (("CNOT",), 0), (a1[4], 0), (("DHmid",), 0)]))
+    two.insert(2, (2, [(a1[9], 0), (("CZ",), 0), (a1[7], 1), (("DH0",), 0)]))
     return one, two
 
 
